@@ -54,4 +54,41 @@ def decodePairs : Bytes → Bytes
 /-- the bytes a fingerprint text denotes -/
 def value (s : Bytes) : Bytes := decodePairs (strip s)
 
+/-! ### `SdpFingerprint::parse` and `SessionDescription::dtls_fingerprint` -/
+
+/-- `str::split_whitespace` on ASCII input: maximal runs of non-whitespace bytes -/
+def splitWs : Bytes → Bytes → List Bytes
+  | [], cur => if cur.isEmpty then [] else [cur.reverse]
+  | b :: rest, cur =>
+    if isWs b then (if cur.isEmpty then splitWs rest [] else cur.reverse :: splitWs rest [])
+    else splitWs rest (b :: cur)
+
+def lower (b : UInt8) : UInt8 := if 0x41 ≤ b ∧ b ≤ 0x5A then b + 0x20 else b
+
+/-- `SdpFingerprint::parse`: exactly "algorithm value"; algorithm lower-cased, value normalised -/
+def parseFingerprint (v : Bytes) : Option (Bytes × Bytes) :=
+  match splitWs v [] with
+  | [alg, val] => (normalize val).map fun n => (alg.map lower, n)
+  | _ => none
+
+inductive Collected where
+  | err
+  | none
+  | some (alg val : Bytes)
+deriving DecidableEq, Repr
+
+/-- `dtls_fingerprint`: every `fingerprint` attribute of the session and of each media section, in
+order (`none` = an attribute without value): the first one found; any later one must be identical -/
+def collect : List (Option Bytes) → Collected → Collected
+  | [], cur => cur
+  | none :: _, _ => .err
+  | some v :: rest, cur =>
+    match parseFingerprint v with
+    | Option.none => .err
+    | Option.some (a, n) =>
+      match cur with
+      | .none => collect rest (.some a n)
+      | .some a' n' => if a' = a ∧ n' = n then collect rest cur else .err
+      | .err => .err
+
 end RtcModel.Fingerprint
